@@ -274,6 +274,22 @@ func genC04(e *emitter, tier string) {
 			}
 		}
 	}
+	// inputs of rank 3 and 4 whose axis 1 has the extent of the lists (NCHW "channels") while the last axis has
+	// it too, or has not: the lists go with the LAST axis (unidirectional broadcast), never with axis 1
+	for _, s := range [][]int{{2, 2, 2}, {1, 3, 3}, {2, 3, 2}, {2, 2, 3}, {3, 2, 1}, {2, 3, 2, 3}, {1, 2, 3, 2}, {2, 3, 1, 1}} {
+		for _, n := range []int{s[1], s[len(s)-1]} {
+			o2 := make([]float64, n)
+			s2 := make([]float64, n)
+			for i := range o2 {
+				o2[i] = float64(10 * (i + 1))
+				s2[i] = float64(i + 1)
+			}
+			k++
+			e.emit(opCase("scaler-rank", "Scaler", []Attr{{Name: "offset", Type: "floats", Fs: o2}, {Name: "scale", Type: "floats", Fs: s2}}, []*TJ{smallT("f32", s, k)}, nil))
+			e.emit(opCase("scaler-rank", "Scaler", []Attr{{Name: "offset", Type: "floats", Fs: o2}, {Name: "scale", Type: "floats", Fs: []float64{2}}}, []*TJ{smallT("f32", s, k)}, nil))
+			e.emit(opCase("scaler-rank", "Scaler", []Attr{{Name: "offset", Type: "floats", Fs: []float64{1}}, {Name: "scale", Type: "floats", Fs: s2}}, []*TJ{smallT("f32", s, k)}, nil))
+		}
+	}
 	e.emit(opCase("scaler-bad", "Scaler", []Attr{{Name: "offset", Type: "floats", Fs: []float64{1}}}, []*TJ{smallT("f32", []int{2}, 1)}, nil))
 	e.emit(opCase("scaler-dtypes", "Scaler", []Attr{{Name: "offset", Type: "floats", Fs: []float64{1}}, {Name: "scale", Type: "floats", Fs: []float64{2}}}, []*TJ{smallT("f64", []int{2}, 1)}, nil))
 	e.emit(opCase("scaler-dtypes", "Scaler", []Attr{{Name: "offset", Type: "floats", Fs: []float64{1}}, {Name: "scale", Type: "floats", Fs: []float64{2}}}, []*TJ{smallT("i32", []int{2}, 1)}, nil))
